@@ -1,6 +1,74 @@
-(** C01 - Parent and children links always describe one consistent forest. *)
+(** C01 - Parent and children links always describe one consistent forest.
+    Only statements; proofs are [exact <lemma of Proofs/>]. *)
 Require Import AT.Model.Base AT.Model.Heap AT.Model.Mutate AT.Spec.MutSpec.
+Require AT.Proofs.MutInv AT.Proofs.MutHistory.
+Import AT.Proofs.MutInv AT.Proofs.MutHistory.
 
-Theorem C01_init_consistent : inv_b (init 3) = true.
-Proof. reflexivity. Qed.
-Print Assumptions C01_init_consistent.
+(** One step: ANY call (the three assignments and the constructors), with ANY
+    arguments naming existing nodes or non-nodes (valid or not), under ANY
+    hook-fault oracle (single, repeated, persistent), both mixins, both
+    assertion settings and any re-entrancy fuel (the RecursionError outcome
+    included), maps a consistent forest to a consistent forest - also when the
+    call is refused, aborted by a hook, or abandoned in the middle of its own
+    rollback. *)
+Theorem C01_step : forall typed asrt faults fuel o s,
+  Inv (heap_of s) -> valid_op (length (heap_of s)) o ->
+  Inv (heap_of (snd (run_op typed asrt faults fuel o s))) /\
+  length (heap_of s) <= length (heap_of (snd (run_op typed asrt faults fuel o s))).
+Proof. exact run_op_inv. Qed.
+Print Assumptions C01_step.
+
+(** Every finite history from the all-roots universe *)
+Theorem C01_history : forall typed k cs,
+  valid_history typed (init k) cs -> Inv (fold_left (step typed) cs (init k)).
+Proof. intros typed k cs V. apply history_inv; [apply init_inv|exact V]. Qed.
+Print Assumptions C01_history.
+
+(** The clauses of the statement, each a consequence of [Inv]:
+    n appears in p.children exactly once iff n.parent is p ... *)
+Theorem C01_exactly_once : forall h, Inv h -> forall n p,
+  count_id (children h p) n = 1 <-> parent h n = Some p.
+Proof. exact exactly_once. Qed.
+Print Assumptions C01_exactly_once.
+
+(** ... and in no other node's children (no node has two parents) *)
+Theorem C01_one_parent : forall h, Inv h -> forall n p q,
+  In n (children h p) -> In n (children h q) -> p = q.
+Proof. exact one_parent. Qed.
+Print Assumptions C01_one_parent.
+
+(** following parent reaches a root in at most |universe| steps; the chain of
+    proper ancestors is duplicate free and does not contain the node itself *)
+Theorem C01_reaches_root : forall h, Inv h -> forall n,
+  exists l, chain h n l /\ ~ In n l /\ NoDup l /\ length l <= length h.
+Proof. exact reaches_root. Qed.
+Print Assumptions C01_reaches_root.
+
+(** the boolean evaluated on the link maps observed from the implementation
+    is exactly [Inv] *)
+Theorem C01_inv_b_sound : forall h, inv_b h = true -> Inv h.
+Proof. exact inv_b_sound. Qed.
+Print Assumptions C01_inv_b_sound.
+Theorem C01_inv_b_complete : forall h, Inv h -> inv_b h = true.
+Proof. exact inv_b_complete. Qed.
+Print Assumptions C01_inv_b_complete.
+
+(** Not yet proved (kept visible): under [Inv] no internal assertion fires, so
+    ANYTREE_ASSERTIONS on/off behave identically.  The correspondence check
+    evaluates it on every explored call (no AssertionError observed; the
+    assertion-on interpreter agrees with the model). *)
+Definition C01_assertions_full : Prop :=
+  forall typed faults fuel o s, Inv (heap_of s) -> valid_op (length (heap_of s)) o ->
+    run_op typed true faults fuel o s = run_op typed false faults fuel o s.
+
+(** non-vacuity: a two-tree forest satisfies the invariant, and a refused,
+    half-rolled-back call on it is covered by the hypotheses *)
+Example C01_example :
+  let h := attach_links (attach_links (init 4) 1 0) 3 2 in
+  Inv h /\ valid_op (length h) (SetChildren 0 (CList [VNode 3; VNode 0])) /\
+  fst (run_op true false no_faults reentry_fuel (SetChildren 0 (CList [VNode 3; VNode 0])) (start h)) = Err LoopError.
+Proof.
+  cbv zeta. split; [apply inv_b_sound; vm_compute; reflexivity|].
+  split; [|vm_compute; reflexivity].
+  simpl. split; [lia|]. repeat constructor; simpl; lia.
+Qed.
